@@ -1,6 +1,7 @@
 (* Properties/C01.v — Policies compose as nested wrappers, in declaration order.
    [compose]/[execute] are the Gallina mirror of executor.go + policy/policyexecutor.go + every policy
    executor; each theorem is for an ARBITRARY inner layer, hence for every composition below it. *)
+From FS Require Import Proofs.ExecFlagsProofs.
 From FS Require Import Model.Exec Proofs.ExecProofs Proofs.ExecStats Corr.C01.
 
 (* the executor's reverse loop is the right-nested application P1(P2(...Pn(fn))) in declaration order *)
@@ -56,3 +57,27 @@ Print Assumptions C01_cache_hit_skips_inner.
 (* partial: the refinement of the flag algebra (Done/Success/SuccessAll) to flag-free per-policy
    documented behaviours (DESIGN.md 4.1 exec_refines_nesting) is not proved; the per-layer
    theorems of C02, C10, C11 and the correspondence on complete logs stand in for it. *)
+
+(* "Each policy handles only what the policy inside it returned": between two layers only the result, the error and the
+   SuccessAll verdict carry information.  Overwriting the Done and Success flags arbitrarily ([g] keeps result, error
+   and SuccessAll) at EVERY layer boundary of ANY stack changes nothing: the same world (complete log of every listener
+   and of the function, counters, policy instances, clock), the same returned result and error, the same verdict.
+   Hence the number of invocations, the returned value and the verdict are determined by the nesting of
+   (result, error, verdict) transformers alone. *)
+Theorem C01_flags_do_not_leak_between_layers : forall g, (forall r, same_core (g r) r) ->
+  forall fuel stack w,
+  same_core (fst (execute_g g fuel stack w)) (fst (execute fuel stack w))
+  /\ snd (execute_g g fuel stack w) = snd (execute fuel stack w).
+Proof. exact execution_determined_by_result_error_verdict. Qed.
+Print Assumptions C01_flags_do_not_leak_between_layers.
+
+Theorem C01_every_layer_respects_inner_equivalence : forall fuel pos total p inner inner',
+  layer_eqv inner inner' -> layer_eqv (apply_policy fuel pos total p inner) (apply_policy fuel pos total p inner').
+Proof. exact apply_policy_eqv. Qed.
+Print Assumptions C01_every_layer_respects_inner_equivalence.
+
+(* a garbling that does change flags exists (the statement is not about the identity only) *)
+Example C01_garbling_is_not_trivial :
+  let g := fun r => {| pr_res := pr_res r; pr_err := pr_err r; pr_done := negb (pr_done r); pr_succ := negb (pr_succ r); pr_all := pr_all r |} in
+  (forall r, same_core (g r) r) /\ g (failure_result EOpen) <> failure_result EOpen.
+Proof. split; [intros r; repeat split|discriminate]. Qed.
